@@ -29,6 +29,14 @@ Proof. unfold raised_by. rewrite flat_map_app. simpl. rewrite app_nil_r. reflexi
 Lemma joined_snoc h ev r : joined (h ++ [ev]) r = joined h r || joins ev r.
 Proof. unfold joined. rewrite existsb_app. simpl. rewrite orb_false_r. reflexivity. Qed.
 
+Lemma taken_snoc h ev r : taken (h ++ [ev]) r = taken h r || takes ev r.
+Proof. unfold taken. rewrite existsb_app. simpl. rewrite orb_false_r. reflexivity. Qed.
+
+Lemma other_snoc h ev : other_expected (h ++ [ev]) = other_expected h ++ other_contribution h ev.
+Proof.
+  unfold other_expected. rewrite scan_snoc, concat_app. simpl. rewrite app_nil_r. reflexivity.
+Qed.
+
 Lemma all_ids_snoc h ev : all_ids (h ++ [ev]) = all_ids h ++ ev_ids ev.
 Proof. unfold all_ids. rewrite flat_map_app. simpl. rewrite app_nil_r. reflexivity. Qed.
 
@@ -83,17 +91,20 @@ Proof. intros (s & -> & L). apply errors_view. exact L. Qed.
 (* ---- the invariant *)
 
 Definition row_inv (h : list event) (st : tstate) (r : nat) : Prop :=
-  if joined h r
+  if taken h r
+  then r_ec (get_row st r) = ECOther
+  else if joined h r
   then r_ec (get_row st r) = ECTable
   else (r_ec (get_row st r) = ECNil /\ raised_by h (Some r) = [])
        \/ (exists c, r_ec (get_row st r) = ECOwn c /\ holds c (raised_by h (Some r))).
 
 Definition Inv (h : list event) (st : tstate) : Prop :=
-  holds (t_ec st) (expected_errors h) /\ forall r, row_inv h st r.
+  holds (t_ec st) (expected_errors h) /\ holds (t_oec st) (other_expected h) /\ forall r, row_inv h st r.
 
 Lemma inv_init : Inv [] init.
 Proof.
-  split.
+  split; [|split].
+  - exact holds_new.
   - exact holds_new.
   - intros r. unfold row_inv. simpl. left. split; reflexivity.
 Qed.
@@ -101,6 +112,20 @@ Qed.
 (* an event that joins no row and is not an attach *)
 Definition plain (ev : event) : Prop :=
   match ev with AttachRow _ | AddSeparator _ | AddHeaders _ => False | _ => True end.
+
+(* an event of this table alone: the other table is not involved *)
+Definition local (ev : event) : Prop :=
+  match ev with OtherAttachRow _ | OtherAddError _ | OtherRowAddError _ _ => False | _ => True end.
+
+Lemma local_taken h ev r : local ev -> taken (h ++ [ev]) r = taken h r.
+Proof.
+  intros H. rewrite taken_snoc. destruct ev; simpl in *; try apply orb_false_r; contradiction.
+Qed.
+
+Lemma local_other h ev : local ev -> other_expected (h ++ [ev]) = other_expected h.
+Proof.
+  intros H. rewrite other_snoc. destruct ev; simpl in *; try apply app_nil_r; contradiction.
+Qed.
 
 Lemma plain_joins ev r : plain ev -> joins ev r = false.
 Proof. destruct ev; simpl; intros H; try reflexivity; contradiction. Qed.
@@ -112,65 +137,77 @@ Proof. destruct ev; simpl; intros H; try reflexivity; contradiction. Qed.
 Lemma plain_joined h ev r : plain ev -> joined (h ++ [ev]) r = joined h r.
 Proof. intros H. rewrite joined_snoc, plain_joins by exact H. apply orb_false_r. Qed.
 
+(* the row part of the invariant, when the event raises nothing on row r *)
+Lemma row_inv_silent h st st' ev r :
+  plain ev -> local ev -> get_row st' r = get_row st r ->
+  (if src_eqb (ev_src ev) (Some r) then ev_ids ev else []) = [] \/ joined h r = true \/ taken h r = true ->
+  row_inv h st r -> row_inv (h ++ [ev]) st' r.
+Proof.
+  intros Hp Hl G Hs HR. unfold row_inv in *.
+  rewrite local_taken by exact Hl. rewrite plain_joined by exact Hp. rewrite G.
+  destruct (taken h r); [exact HR|]. destruct (joined h r); [exact HR|].
+  destruct Hs as [Hs|[Hs|Hs]]; try discriminate.
+  rewrite raised_by_snoc, Hs, app_nil_r. exact HR.
+Qed.
+
 (* the event's errors go to the end of the table's log *)
 Lemma inv_deliver h st ev c' :
-  Inv h st -> plain ev -> delivered h (ev_src ev) = true ->
+  Inv h st -> plain ev -> local ev -> delivered h (ev_src ev) = true ->
   holds c' (expected_errors h ++ ev_ids ev) ->
   Inv (h ++ [ev]) (set_tec st c').
 Proof.
-  intros [HT HR] Hp Hd Hc. split.
+  intros (HT & HO & HR) Hp Hl Hd Hc. split; [|split].
   - simpl. rewrite expected_snoc, plain_contribution, Hd by exact Hp. exact Hc.
-  - intros r. specialize (HR r). unfold row_inv in *. rewrite plain_joined by exact Hp.
-    change (get_row (set_tec st c') r) with (get_row st r).
-    destruct (joined h r) eqn:J; [exact HR|].
-    rewrite raised_by_snoc.
-    assert (E : src_eqb (ev_src ev) (Some r) = false).
-    { destruct (ev_src ev) as [r'|] eqn:S; [|reflexivity]. simpl in Hd. simpl.
-      destruct (r' =? r) eqn:Q; [|reflexivity]. apply Nat.eqb_eq in Q. congruence. }
-    rewrite E, app_nil_r. exact HR.
+  - simpl. rewrite local_other by exact Hl. exact HO.
+  - intros r. apply (row_inv_silent h st); try assumption; [reflexivity| |exact (HR r)].
+    destruct (ev_src ev) as [r'|] eqn:S; [|left; reflexivity]. simpl in Hd. simpl.
+    destruct (r' =? r) eqn:Q; [|left; reflexivity]. apply Nat.eqb_eq in Q. subst r'.
+    right. left. exact Hd.
 Qed.
 
 (* the event's errors go to the private container of a row outside the table *)
 Lemma inv_pending h st ev r rs c' :
-  Inv h st -> plain ev -> ev_src ev = Some r -> joined h r = false ->
+  Inv h st -> plain ev -> local ev -> ev_src ev = Some r -> joined h r = false -> taken h r = false ->
   r_ec rs = ECOwn c' -> holds c' (raised_by h (Some r) ++ ev_ids ev) ->
   Inv (h ++ [ev]) (set_row st r rs).
 Proof.
-  intros [HT HR] Hp Hs Hj Hec Hc. split.
+  intros (HT & HO & HR) Hp Hl Hs Hj Ht Hec Hc. split; [|split].
   - simpl. rewrite expected_snoc, plain_contribution, Hs by exact Hp. simpl. rewrite Hj, app_nil_r. exact HT.
-  - intros r'. unfold row_inv. rewrite plain_joined by exact Hp. rewrite raised_by_snoc, Hs.
-    destruct (Nat.eq_dec r r') as [<-|N].
-    + rewrite Hj, get_set_same, src_eqb_refl. right. exists c'. split; assumption.
-    + rewrite get_set_other by exact N. rewrite src_eqb_neq by congruence. rewrite app_nil_r.
-      exact (HR r').
+  - simpl. rewrite local_other by exact Hl. exact HO.
+  - intros r'. destruct (Nat.eq_dec r r') as [<-|N].
+    + unfold row_inv. rewrite local_taken by exact Hl. rewrite plain_joined by exact Hp.
+      rewrite raised_by_snoc, Hs, Ht, Hj, get_set_same, src_eqb_refl. right. exists c'. split; assumption.
+    + apply (row_inv_silent h st); try assumption; [apply get_set_other; exact N| |exact (HR r')].
+      left. rewrite Hs. rewrite src_eqb_neq by congruence. reflexivity.
 Qed.
 
 (* nothing raised, nothing changed *)
-Lemma inv_noop h st ev : Inv h st -> plain ev -> ev_ids ev = [] -> Inv (h ++ [ev]) st.
+Lemma inv_noop h st ev : Inv h st -> plain ev -> local ev -> ev_ids ev = [] -> Inv (h ++ [ev]) st.
 Proof.
-  intros [HT HR] Hp Hi. split.
+  intros (HT & HO & HR) Hp Hl Hi. split; [|split].
   - rewrite expected_snoc, plain_contribution, Hi by exact Hp.
     destruct (delivered h (ev_src ev)); rewrite app_nil_r; exact HT.
-  - intros r. specialize (HR r). unfold row_inv in *. rewrite plain_joined by exact Hp.
-    rewrite raised_by_snoc, Hi. destruct (src_eqb (ev_src ev) (Some r)); rewrite app_nil_r; exact HR.
+  - rewrite local_other by exact Hl. exact HO.
+  - intros r. apply (row_inv_silent h st); try assumption; [reflexivity| |exact (HR r)].
+    left. rewrite Hi. destruct (src_eqb (ev_src ev) (Some r)); reflexivity.
 Qed.
 
 (* t.AddError / a taker that is the table's container *)
 Lemma table_add_error_inv h st ev e :
-  Inv h st -> plain ev -> delivered h (ev_src ev) = true -> ev_ids ev = non_nil [e] ->
+  Inv h st -> plain ev -> local ev -> delivered h (ev_src ev) = true -> ev_ids ev = non_nil [e] ->
   Inv (h ++ [ev]) (table_add_error st e).
 Proof.
-  intros HI Hp Hd Hi. unfold table_add_error. apply inv_deliver; try assumption.
+  intros HI Hp Hl Hd Hi. unfold table_add_error. apply inv_deliver; try assumption.
   rewrite Hi. apply holds_add. exact (proj1 HI).
 Qed.
 
 (* Row.AddError: the table's log for a row inside the table, the row's own
    container (made on demand) otherwise *)
 Lemma row_add_error_inv h st ev r e :
-  Inv h st -> plain ev -> ev_src ev = Some r -> ev_ids ev = non_nil [e] ->
+  Inv h st -> plain ev -> local ev -> ev_src ev = Some r -> taken h r = false -> ev_ids ev = non_nil [e] ->
   Inv (h ++ [ev]) (row_add_error st r e).
 Proof.
-  intros HI Hp Hs Hi. pose proof (proj2 HI r) as HR. unfold row_inv in HR.
+  intros HI Hp Hl Hs Ht Hi. pose proof (proj2 (proj2 HI) r) as HR. unfold row_inv in HR. rewrite Ht in HR.
   unfold row_add_error, rowec_add_error.
   destruct (joined h r) eqn:J.
   - rewrite HR. rewrite HR. apply table_add_error_inv; try assumption. rewrite Hs. exact J.
@@ -182,9 +219,9 @@ Proof.
                  (mkRow (ECOwn (add_error (create MNew) e)) (r_in_table (get_row st r)) (r_sep (get_row st r))))
         by reflexivity.
       assert (HI1 : Inv h (set_row st r (with_ec (get_row st r) (ECOwn (create MNew))))).
-      { destruct HI as [HT HRs]. split; [exact HT|]. intros r'. unfold row_inv.
+      { destruct HI as (HT & HO & HRs). split; [exact HT|]. split; [exact HO|]. intros r'. unfold row_inv.
         destruct (Nat.eq_dec r r') as [<-|N].
-        - rewrite J, get_set_same. right. exists (create MNew). split; [reflexivity|]. rewrite R0. exact holds_new.
+        - rewrite Ht, J, get_set_same. right. exists (create MNew). split; [reflexivity|]. rewrite R0. exact holds_new.
         - rewrite get_set_other by exact N. exact (HRs r'). }
       eapply inv_pending; try eassumption; [reflexivity|].
       rewrite R0, Hi. apply (holds_add _ []). exact holds_new.
@@ -194,33 +231,106 @@ Qed.
 
 (* row.ErrorContainer as a taker, for a row inside the table *)
 Lemma rowec_add_error_inv h st ev r e :
-  Inv h st -> plain ev -> ev_src ev = Some r -> joined h r = true -> ev_ids ev = non_nil [e] ->
+  Inv h st -> plain ev -> local ev -> ev_src ev = Some r -> joined h r = true -> taken h r = false ->
+  ev_ids ev = non_nil [e] ->
   Inv (h ++ [ev]) (rowec_add_error st r e).
 Proof.
-  intros HI Hp Hs J Hi. pose proof (proj2 HI r) as HR. unfold row_inv in HR. rewrite J in HR.
+  intros HI Hp Hl Hs J Ht Hi. pose proof (proj2 (proj2 HI) r) as HR. unfold row_inv in HR. rewrite Ht, J in HR.
   unfold rowec_add_error. rewrite HR. apply table_add_error_inv; try assumption. rewrite Hs. exact J.
 Qed.
 
-Lemma attach_inv h st r : Inv h st -> joined h r = false -> Inv (h ++ [AttachRow r]) (table_add_row st r).
+Lemma attach_inv h st r :
+  Inv h st -> joined h r = false -> taken h r = false -> Inv (h ++ [AttachRow r]) (table_add_row st r).
 Proof.
-  intros [HT HR] J.
+  intros (HT & HO & HR) J Tk.
   assert (HT1 : exists st1, (match row_errors st r with
                             | Some l => table_add_error_list st (Some l)
                             | None => st end) = st1
-                 /\ t_rows st1 = t_rows st
+                 /\ t_rows st1 = t_rows st /\ t_oec st1 = t_oec st
                  /\ holds (t_ec st1) (expected_errors h ++ raised_by h (Some r))).
-  { pose proof (HR r) as Hr. unfold row_inv in Hr. rewrite J in Hr. unfold row_errors.
+  { pose proof (HR r) as Hr. unfold row_inv in Hr. rewrite Tk, J in Hr. unfold row_errors.
     destruct Hr as [[E R0]|(c & E & Hc)]; rewrite E.
     - exists st. rewrite R0, app_nil_r. repeat split; assumption.
     - rewrite (holds_errors _ _ Hc). destruct (raised_by h (Some r)) as [|x l] eqn:R.
       + exists st. rewrite app_nil_r. repeat split; assumption.
-      + eexists. split; [reflexivity|]. split; [reflexivity|].
+      + eexists. split; [reflexivity|]. split; [reflexivity|]. split; [reflexivity|].
         cbn [view table_add_error_list set_tec t_ec].
         replace (x :: l) with (non_nil (map Some (x :: l))) at 2 by apply non_nil_map_some.
         apply (holds_add_list _ _ (Some (map Some (x :: l)))). exact HT. }
-  destruct HT1 as (st1 & E1 & Rows & H1). unfold table_add_row. rewrite E1. split.
+  destruct HT1 as (st1 & E1 & Rows & Oec & H1). unfold table_add_row. rewrite E1. split; [|split].
   - simpl. rewrite expected_snoc. unfold contribution. simpl. rewrite app_nil_r. exact H1.
-  - intros r'. unfold row_inv. rewrite joined_snoc. simpl joins. rewrite raised_by_snoc. simpl. rewrite app_nil_r.
+  - simpl. rewrite Oec. rewrite local_other by exact I. exact HO.
+  - intros r'. unfold row_inv. rewrite local_taken by exact I.
+    rewrite joined_snoc. simpl joins. rewrite raised_by_snoc. simpl. rewrite app_nil_r.
+    destruct (Nat.eq_dec r r') as [<-|N].
+    + rewrite Tk, Nat.eqb_refl, orb_true_r, get_set_same. reflexivity.
+    + rewrite get_set_other by exact N.
+      replace (r =? r') with false by (symmetry; apply Nat.eqb_neq; exact N). rewrite orb_false_r.
+      unfold get_row. rewrite Rows. exact (HR r').
+Qed.
+
+Lemma fresh_not_taken h r : fresh h r = true -> taken h r = false.
+Proof.
+  unfold fresh, taken. induction h as [|ev h IH]; simpl; intros H; [reflexivity|].
+  apply negb_true_iff in H. apply orb_false_iff in H as [M R].
+  rewrite IH by (apply negb_true_iff; exact R). rewrite orb_false_r.
+  destruct ev; simpl in *; try reflexivity; exact M.
+Qed.
+
+(* AddSeparator / AddHeaders: a row made inside the table *)
+Lemma made_inv h st ev r hd :
+  Inv h st -> (ev = AddSeparator r \/ ev = AddHeaders r) -> fresh h r = true -> forall rs, r_ec rs = ECTable ->
+  Inv (h ++ [ev]) (mkT (t_ec st) ((r, rs) :: t_rows st) hd (t_oec st)).
+Proof.
+  intros (HT & HO & HR) Hev F rs Hrs.
+  assert (C : contribution h ev = []) by (destruct Hev; subst; reflexivity).
+  assert (Jn : forall r', joins ev r' = (r =? r')) by (destruct Hev; subst; reflexivity).
+  assert (S : ev_src ev = None /\ ev_ids ev = []) by (destruct Hev; subst; split; reflexivity).
+  assert (L : local ev) by (destruct Hev; subst; exact I).
+  split; [|split].
+  - simpl. rewrite expected_snoc, C, app_nil_r. exact HT.
+  - simpl. rewrite local_other by exact L. exact HO.
+  - intros r'. unfold row_inv. rewrite local_taken by exact L. rewrite joined_snoc, Jn, raised_by_snoc.
+    destruct S as [S1 S2]. rewrite S1. simpl src_eqb. rewrite app_nil_r.
+    unfold get_row. simpl. destruct (r =? r') eqn:Q.
+    + apply Nat.eqb_eq in Q. subst r'. rewrite (fresh_not_taken h r F), orb_true_r. exact Hrs.
+    + rewrite orb_false_r. exact (HR r').
+Qed.
+
+(* ---- the other table *)
+
+Lemma holds_shown h st r : Inv h st -> taken h r = false -> row_errors st r = view (shown h r).
+Proof.
+  intros (HT & HO & HR) Tk. specialize (HR r). unfold row_inv in HR. rewrite Tk in HR.
+  unfold row_errors, shown. destruct (joined h r).
+  - rewrite HR. apply holds_errors. exact HT.
+  - destruct HR as [[E R0]|(c & E & Hc)]; rewrite E.
+    + rewrite R0. reflexivity.
+    + apply holds_errors. exact Hc.
+Qed.
+
+(* u.AddRow(r): the other table gets what the row shows; this table's
+   container and every other row are as they were *)
+Lemma other_attach_inv h st r :
+  Inv h st -> taken h r = false -> Inv (h ++ [OtherAttachRow r]) (other_add_row st r).
+Proof.
+  intros HI Tk. pose proof (holds_shown h st r HI Tk) as Hs. destruct HI as (HT & HO & HR).
+  assert (H1 : exists st1, (match row_errors st r with
+                            | Some l => set_oec st (add_error_list (t_oec st) (Some l))
+                            | None => st end) = st1
+                 /\ t_rows st1 = t_rows st /\ t_ec st1 = t_ec st
+                 /\ holds (t_oec st1) (other_expected h ++ shown h r)).
+  { rewrite Hs. destruct (shown h r) as [|x l] eqn:R.
+    - exists st. rewrite app_nil_r. repeat split; assumption.
+    - eexists. split; [reflexivity|]. split; [reflexivity|]. split; [reflexivity|].
+      cbn [view set_oec t_oec].
+      replace (x :: l) with (non_nil (map Some (x :: l))) at 2 by apply non_nil_map_some.
+      apply (holds_add_list _ _ (Some (map Some (x :: l)))). exact HO. }
+  destruct H1 as (st1 & E1 & Rows & Tec & H1). unfold other_add_row. rewrite E1. split; [|split].
+  - simpl. rewrite Tec, expected_snoc. simpl. rewrite app_nil_r. exact HT.
+  - simpl. rewrite other_snoc. exact H1.
+  - intros r'. unfold row_inv. rewrite taken_snoc. simpl takes.
+    rewrite joined_snoc. simpl joins. rewrite raised_by_snoc. simpl. rewrite app_nil_r, orb_false_r.
     destruct (Nat.eq_dec r r') as [<-|N].
     + rewrite Nat.eqb_refl, orb_true_r, get_set_same. reflexivity.
     + rewrite get_set_other by exact N.
@@ -228,22 +338,18 @@ Proof.
       unfold get_row. rewrite Rows. exact (HR r').
 Qed.
 
-(* AddSeparator / AddHeaders: a row made inside the table *)
-Lemma made_inv h st ev r hd :
-  Inv h st -> (ev = AddSeparator r \/ ev = AddHeaders r) -> forall rs, r_ec rs = ECTable ->
-  Inv (h ++ [ev]) (mkT (t_ec st) ((r, rs) :: t_rows st) hd).
+(* an error that goes to the other table's container: nothing of this table moves *)
+Lemma other_add_error_inv h st ev e :
+  Inv h st -> plain ev -> ev_src ev = None -> ev_ids ev = [] -> (forall r, takes ev r = false) ->
+  other_contribution h ev = non_nil [e] ->
+  Inv (h ++ [ev]) (other_add_error st e).
 Proof.
-  intros [HT HR] Hev rs Hrs.
-  assert (C : contribution h ev = []) by (destruct Hev; subst; reflexivity).
-  assert (Jn : forall r', joins ev r' = (r =? r')) by (destruct Hev; subst; reflexivity).
-  assert (S : ev_src ev = None /\ ev_ids ev = []) by (destruct Hev; subst; split; reflexivity).
-  split.
-  - simpl. rewrite expected_snoc, C, app_nil_r. exact HT.
-  - intros r'. unfold row_inv. rewrite joined_snoc, Jn, raised_by_snoc.
-    destruct S as [S1 S2]. rewrite S1. simpl src_eqb. rewrite app_nil_r.
-    unfold get_row. simpl. destruct (r =? r') eqn:Q.
-    + rewrite orb_true_r. exact Hrs.
-    + rewrite orb_false_r. exact (HR r').
+  intros (HT & HO & HR) Hp Hs Hi Hk Hc. split; [|split].
+  - simpl. rewrite expected_snoc, plain_contribution, Hi by exact Hp.
+    destruct (delivered h (ev_src ev)); rewrite app_nil_r; exact HT.
+  - simpl. rewrite other_snoc, Hc. apply holds_add. exact HO.
+  - intros r. specialize (HR r). unfold row_inv in *. rewrite taken_snoc, Hk, orb_false_r.
+    rewrite plain_joined by exact Hp. rewrite raised_by_snoc, Hs. simpl. rewrite app_nil_r. exact HR.
 Qed.
 
 Lemma site_taker_row_has_row s : site_taker s = TkRow -> site_has_row s = true.
@@ -255,30 +361,46 @@ Proof. destruct s; simpl; intros H; try discriminate; split; reflexivity. Qed.
 Lemma site_taker_table s : site_taker s = TkTable -> site_has_row s = false \/ site_detached_ok s = false.
 Proof. destruct s; simpl; intros H; try discriminate; auto. Qed.
 
+(* the spec's reading of the call sites and the model's agree *)
+Lemma site_via_row_taker s : site_via_row s = negb (match site_taker s with TkTable => true | _ => false end).
+Proof. destruct s; reflexivity. Qed.
+
 Lemma step_inv h st ev : Inv h st -> wf_event h ev = true -> Inv (h ++ [ev]) (step st ev).
 Proof.
-  intros HI W. destruct ev as [r e|e|es|r|r|r|r e|s r e]; cbn [step].
-  - apply row_add_error_inv; try assumption; try exact I; try reflexivity; try (destruct e; reflexivity).
+  intros HI W. destruct ev as [r e|e|es|r|r|r|r e|s r e|r|e|r e]; cbn [step].
+  - simpl in W. apply negb_true_iff in W.
+    apply row_add_error_inv; try assumption; try exact I; try reflexivity; try (destruct e; reflexivity).
   - apply table_add_error_inv; try assumption; try exact I; try reflexivity; try (destruct e; reflexivity).
   - unfold table_add_error_list. apply inv_deliver; try assumption; try exact I; try reflexivity.
     replace (ev_ids (TableAddErrorList es)) with (non_nil (match es with None => [] | Some x => x end))
       by (destruct es; reflexivity).
     apply holds_add_list. exact (proj1 HI).
-  - apply attach_inv; [assumption|]. simpl in W. apply negb_true_iff in W. exact W.
-  - unfold add_separator, set_row. eapply made_inv; [assumption | left; reflexivity | reflexivity].
-  - unfold add_headers, set_hdr, set_row. cbn [t_ec t_rows]. eapply made_inv; [assumption | right; reflexivity | reflexivity].
-  - unfold row_add_misuse. apply row_add_error_inv; try assumption; try exact I; reflexivity.
+  - simpl in W. apply andb_true_iff in W as [W1 W2]. apply negb_true_iff in W1, W2.
+    apply attach_inv; assumption.
+  - unfold add_separator, set_row. eapply made_inv; [assumption | left; reflexivity | exact W | reflexivity].
+  - unfold add_headers, set_hdr, set_row. cbn [t_ec t_rows t_oec].
+    eapply made_inv; [assumption | right; reflexivity | exact W | reflexivity].
+  - simpl in W. apply andb_true_iff in W as [W1 W2]. apply negb_true_iff in W2.
+    unfold row_add_misuse. apply row_add_error_inv; try assumption; try exact I; reflexivity.
   - unfold invoke_fail. destruct e as [x|].
-    + simpl in W. destruct (site_taker s) eqn:T.
-      * apply row_add_error_inv; try assumption; try exact I; [|reflexivity].
+    + simpl in W. apply andb_true_iff in W as [W W']. apply negb_true_iff in W'.
+      rewrite site_via_row_taker in W'. destruct (site_taker s) eqn:T.
+      * simpl in W'. rewrite andb_true_r in W'.
+        apply row_add_error_inv; try assumption; try exact I; [|reflexivity].
         simpl. rewrite (site_taker_row_has_row s T). reflexivity.
-      * destruct (site_taker_rowec s T) as [Hh Hd]. rewrite Hd in W. simpl in W.
+      * simpl in W'. rewrite andb_true_r in W'.
+        destruct (site_taker_rowec s T) as [Hh Hd]. rewrite Hd in W. simpl in W.
         apply rowec_add_error_inv; try assumption; try exact I; [|reflexivity].
         simpl. rewrite Hh. reflexivity.
       * apply table_add_error_inv; try assumption; try exact I; [|reflexivity].
         simpl ev_src. destruct (site_has_row s) eqn:Hh; [|reflexivity].
         destruct (site_taker_table s T) as [Q|Q]; [congruence|]. rewrite Q in W. exact W.
-    + apply inv_noop; [assumption | exact I | reflexivity].
+    + apply inv_noop; [assumption | exact I | exact I | reflexivity].
+  - simpl in W. apply negb_true_iff in W. apply other_attach_inv; assumption.
+  - apply other_add_error_inv; try assumption; try exact I; try reflexivity; try (destruct e; reflexivity).
+  - simpl in W. pose proof (proj2 (proj2 HI) r) as HR. unfold row_inv in HR. rewrite W in HR.
+    unfold row_add_error, rowec_add_error. rewrite HR. rewrite HR.
+    apply other_add_error_inv; try assumption; try exact I; try reflexivity; try (destruct e; reflexivity).
 Qed.
 
 Lemma run_snoc h ev : run (h ++ [ev]) = step (run h) ev.
@@ -297,15 +419,35 @@ Qed.
 Theorem table_log : forall h, wf_hist h -> table_errors (run h) = view (expected_errors h).
 Proof. intros h W. unfold table_errors. apply holds_errors. exact (proj1 (run_inv h W)). Qed.
 
+(* the other table's log *)
+Theorem other_log : forall h, wf_hist h -> other_errors (run h) = view (other_expected h).
+Proof. intros h W. unfold other_errors. apply holds_errors. exact (proj1 (proj2 (run_inv h W))). Qed.
+
 (* the log a row itself shows: the table's once it belongs to the table, its
-   own pending errors before *)
+   own pending errors before, the other table's once that one has taken it *)
 Theorem row_log : forall h r, wf_hist h -> row_errors (run h) r = view (expected_row h r).
 Proof.
-  intros h r W. destruct (run_inv h W) as [HT HR]. specialize (HR r).
-  unfold row_inv in HR. unfold row_errors, expected_row.
-  destruct (joined h r).
-  - rewrite HR. apply holds_errors. exact HT.
-  - destruct HR as [[E R0]|(c & E & Hc)]; rewrite E.
-    + rewrite R0. reflexivity.
-    + apply holds_errors. exact Hc.
+  intros h r W. pose proof (run_inv h W) as HI. unfold expected_row.
+  destruct (taken h r) eqn:Tk.
+  - destruct HI as (HT & HO & HR). specialize (HR r). unfold row_inv in HR. rewrite Tk in HR.
+    unfold row_errors. rewrite HR. apply holds_errors. exact HO.
+  - apply holds_shown; assumption.
+Qed.
+
+(* Another table taking a row - one still outside this table, or one of its
+   own rows - is no event of this table: whatever came before and whatever
+   comes after, the log is the one of the history without it. *)
+Lemma wf_prefix h1 h2 : wf_hist (h1 ++ h2) -> wf_hist h1.
+Proof.
+  revert h1. induction h2 as [|ev h2 IH] using rev_ind; intros h1 W.
+  - rewrite app_nil_r in W. exact W.
+  - rewrite app_assoc in W. unfold wf_hist in W. rewrite wf_snoc in W.
+    apply andb_true_iff in W as [W _]. apply IH. exact W.
+Qed.
+
+Theorem take_keeps_log : forall h r, wf_hist (h ++ [OtherAttachRow r]) ->
+  table_errors (run (h ++ [OtherAttachRow r])) = table_errors (run h).
+Proof.
+  intros h r W. rewrite (table_log _ W), (table_log h (wf_prefix _ _ W)).
+  rewrite expected_snoc. simpl. rewrite app_nil_r. reflexivity.
 Qed.
